@@ -204,9 +204,23 @@ func drawCase(t *rapid.T) decCase {
 	c.Type = gen.TypeName(types, rich).Draw(t, "type")
 	md := corpus.ByName(c.Type).Descriptor()
 	c.Limit = rapid.SampledFrom([]int{0, 0, 0, 1, 2, 3, 4, 6, 9, 12}).Draw(t, "limit")
-	src := rapid.IntRange(0, 6).Draw(t, "source")
+	src := rapid.IntRange(0, 8).Draw(t, "source")
+	if src == 7 {
+		if b, ok := siblings(t, md, c.Limit); ok {
+			c.Source, c.B = "siblings", b
+			return c
+		}
+		src = 0
+	}
+	if src == 8 {
+		if typ, b, ok := reqFlip(t); ok {
+			c.Type, c.Source, c.B = typ, "required-message-other-wiretype", b
+			return c
+		}
+		src = 0
+	}
 	if src == 6 {
-		if b, kind, ok := packedFault(t, md); ok {
+		if b, kind, ok := gen.PackedFault(t, md); ok {
 			c.Source, c.B = "packed-fault-"+kind, b
 			return c
 		}
@@ -252,10 +266,10 @@ func drawCase(t *rapid.T) decCase {
 func TestDecode(t *testing.T) {
 	pbt.Run(t, pbt.Prop[decCase]{
 		Name: "decode",
-		Rule: "types: every generated (table-driven) message type, 1/5 lazy-capable; inputs: perturbed-but-valid encodings of generated content, their mutations (truncate/flip/insert/delete/badlen/overlong/wiretype/zerotag/endgroup/splice/bigvarint/retype/rawvarint), packed runs of a repeated scalar field (top level or below message fields) with one hostile element (10-byte overflow, largest 10-byte value, 11 bytes, unterminated, padded, partial fixed-width element), raw bytes, chains of nested known messages/groups/map entries within ±2 of the drawn RecursionLimit (default or 1..12). non-trivial = malformed input whose first field is well-formed, or well-formed input with >= 3 records, or a chain, or a packed-run fault",
+		Rule: "types: every generated (table-driven) message type, 1/5 lazy-capable; inputs: perturbed-but-valid encodings of generated content, their mutations (truncate/flip/insert/delete/badlen/overlong/wiretype/zerotag/endgroup/splice/bigvarint/retype/rawvarint), packed runs of a repeated scalar field (top level or below message fields) with one hostile element (10-byte overflow, largest 10-byte value, 11 bytes, unterminated, padded, partial fixed-width element), many empty sibling elements of a repeated message / group field under a small RecursionLimit (below lazy fields preferred), fully initialised messages in which one required message field is re-encoded under the other message wire type, raw bytes, chains of nested known messages/groups/map entries within ±2 of the drawn RecursionLimit (default or 1..12). non-trivial = malformed input whose first field is well-formed, or well-formed input with >= 3 records, or a chain, or a packed-run fault",
 		Draw: drawCase, Check: checkDecode,
 		NonTrivial: func(c decCase) bool {
-			if c.Source == "chain" || strings.HasPrefix(c.Source, "packed-fault-") {
+			if c.Source == "chain" || c.Source == "siblings" || c.Source == "required-message-other-wiretype" || strings.HasPrefix(c.Source, "packed-fault-") {
 				return true
 			}
 			recs, ok := ref.Split(c.B)
